@@ -175,6 +175,28 @@ unit("ws.unmask", ["C12", "C06"], "units/ws.c", entry="h_ws_unmask", functions=[
      **dict(WS_COMMON, unwind=24, defines_thorough=["WS_UNMASK_MAX=40"], unwind_thorough=44, goto_instrument_args=[]))
 
 # ------------------------------------------------------------------------------------------
+# C13 HTTP front door
+# ------------------------------------------------------------------------------------------
+unit("http.url", ["C13", "C06"], "units/u_http.c", entry="h_http_url", functions=["find_url_handler"], unwind=8, solver="cadical", kind="bounded",
+     bound="targets of <= 3 characters, request paths of <= 5 characters, <= 2 handlers", expect_tags=["C13.url.handler-selected-iff-the-path-starts-with-its-whole-target"], timeout=300,
+     includes=["{REPO}/src/http-parser"])
+unit("http.start", ["C13", "C07", "C06"], "units/u_http.c", entry="h_http_start", functions=["read_start_line", "on_url", "send_http_error_response", "free_connection", "get_response"], unwind=40, solver="cadical",
+     flags=["--memory-leak-check"], expect_tags=["C13.start.refused-exchange-leaves-no-peer-behind", "C13.start.refused-exchange-releases-the-connection-once"], timeout=300,
+     goto_instrument_args=["--value-set-fi-fp-removal"], replay={"c": "replay/http_replay.c", "extract": "http_extract", "link": ["src/http-parser/http_parser.c"]},
+     assumes=["http_parser_execute / http_parser_parse_url: assumed contracts (the vendored parser is not verified): on_url may be invoked and the line still be rejected"])
+unit("ws.version", ["C13", "C12"], "units/ws.c", entry="h_ws_version", functions=["check_http_version"], expect_tags=["C13.version.upgrade-only-for-http-1.1-or-higher"], timeout=120,
+     **dict(WS_COMMON, unwind=4, goto_instrument_args=[]))
+
+# ------------------------------------------------------------------------------------------
+# C20 password change (auth_file.c)
+# ------------------------------------------------------------------------------------------
+unit("pw.change", ["C20", "C08", "C06"], "units/u_authfile.c", entry="h_pw_change", functions=["change_password", "is_readonly", "is_admin", "get_salt_from_passwd", "fill_salt", "write_user_data", "clear_password"],
+     unwind=20, cbmc_unwindset=["cj_delete_0.0:6", "cj_delete_1.0:6", "cj_delete_2.0:5", "cj_delete_3.0:5", "cj_name_eq_nocase.0:10", "strlen.0:10", "memcpy.0:10", "strcmp.0:10", "write_user_data.0:8"],
+     solver="cadical", kind="proof", bound="two accounts with names of 1-2 characters over {a,b,c}, the four stored-hash formats, every caller/target combination, every truncate/short-write/error outcome (<= 4 write calls)",
+     expect_tags=["C20.change.unauthorised-request-changes-nothing", "C20.salt.well-formed-salt-for-the-accounts-method", "C20.write.database-rewritten-from-offset-zero"], timeout=900, mem_gb=30,
+     assumes=CJ_ASSUME_LATE + ["crypt(): uninterpreted (returns a fixed hash or NULL) - 'the new password authenticates' is decided only up to crypt", "ftruncate / lseek / write: ghost file (short writes and errors at every call)"])
+
+# ------------------------------------------------------------------------------------------
 # C10 outbound streams / C09 inbound segmentation (buffered_socket.c)
 # ------------------------------------------------------------------------------------------
 def cut(fns):
@@ -197,6 +219,9 @@ unit("bs.writev", ["C10"], "units/bs.c", entry="h_bs_writev",
      replay={"c": "replay/bs_replay.c", "extract": "bs_extract"}, **BS_WRITE)
 unit("bs.flush", ["C10"], "units/bs.c", entry="h_bs_flush", functions=["write_function", "send_buffer", "error_function"],
      expect_tags=["C10.flush.nothing-lost-nothing-duplicated", "C10.flush.bytes-in-order"], timeout=700, **BS_WRITE)
+unit("bs.start", ["C09", "C13", "C05"], "units/bs.c", entry="h_bs_start", tier="thorough", functions=["buffered_socket_read_until", "buffered_socket_read_exactly", "go_reading", "buffered_socket_init", "error_function"],
+     expect_tags=["C13.start.read-error-and-over-long-line-are-reported-through-the-error-callback", "C05.start.no-callback-after-the-connection-was-closed"], timeout=900,
+     **dict(BS_COMMON, unwind=14, goto_instrument_args=cut(["write_function", "send_buffer", "read_function"]) + ["--value-set-fi-fp-removal"]))
 unit("bs.read_exactly", ["C09"], "units/bs.c", entry="h_bs_read_exactly", functions=["get_read_ptr", "fill_buffer", "reorganize_read_buffer"],
      expect_tags=["C09.exact.hands-out-the-next-stream-bytes-whatever-the-chunking", "C09.exact.buffer-still-mirrors-the-stream"], timeout=700, **BS_READ)
 unit("bs.read_until", ["C09"], "units/bs.c", entry="h_bs_read_until", functions=["internal_read_until", "fill_buffer", "reorganize_read_buffer"],
@@ -219,13 +244,13 @@ for _h, _fns in (("error", ["create_error_response", "create_error_object", "cre
          defines=["RESP_FAIL=1"], tier="thorough", kind="proof", bound="as resp.%s; every subset of allocations fails" % _h,
          flags=["--memory-leak-check"], timeout=300, assumes=CJ_ASSUME)
 
-unit("rpc.dispatch", ["C02", "C06"], "units/u_rpc.c", entry="h_rpc_dispatch", functions=["parse_json_rpc", "handle_method", "send_response", "process_fetch"], unwind=16, cbmc_unwindset=CJ_UNWIND, solver="cadical",
+unit("rpc.dispatch", ["C02", "C06"], "units/u_rpc.c", entry="h_rpc_dispatch", functions=["parse_json_rpc", "handle_method", "send_response", "process_fetch"], unwind=16, cbmc_unwindset=CJ_UNWIND + ["cJSON_GetObjectItem.0:6", "cj_name_eq_nocase.0:9"], solver="cadical",
      kind="proof", bound="every combination of method (12 names, unknown, non-string) / id / result / error members",
      expect_tags=["C02.dispatch.exactly-one-handler-per-request-object", "C02.dispatch.each-built-response-is-sent-exactly-once", "C02.dispatch.incoming-result-is-routed-never-answered"],
      flags=["--memory-leak-check"], goto_instrument_args=["--restrict-function-pointer", "send_response.function_pointer_call.1/stub_send"], timeout=600,
      assumes=CJ_ASSUME + ["handlers and router: recording stubs returning NULL or a fresh response", "send_message: returns 0 or -1"])
-unit("rpc.batch", ["C02", "C06"], "units/u_rpc.c", entry="h_rpc_batch", functions=["parse_json_array", "parse_json_rpc"], unwind=16, cbmc_unwindset=CJ_UNWIND, solver="cadical",
-     kind="proof", bound="batches of <= 2 members (thorough: 3)", defines_thorough=["RPC_BATCH_MAX=3"],
+unit("rpc.batch", ["C02", "C06"], "units/u_rpc.c", entry="h_rpc_batch", functions=["parse_json_array", "parse_json_rpc"], unwind=16, cbmc_unwindset=CJ_UNWIND + ["cJSON_GetObjectItem.0:6", "cj_name_eq_nocase.0:9", "cJSON_GetArrayItem.0:5", "cJSON_GetArraySize.0:5", "parse_json_array.0:5"], solver="cadical",
+     kind="proof", bound="batches of <= 3 members, each the minimal request or a non-object",
      expect_tags=["C02.batch.members-processed-in-order", "C02.batch.members-processed-until-the-first-non-object"],
      goto_instrument_args=["--restrict-function-pointer", "send_response.function_pointer_call.1/stub_send"], timeout=600, assumes=CJ_ASSUME)
 
@@ -494,5 +519,25 @@ PROPERTY_META["C11"] = {
                    "'same history with healthy peers' claim are not covered."),
     "explanation": "C11: harness contracts on notify_fetchers and handle_events.",
     "not_decided": ["accept path", "other delivery loops", "history-relative clause"],
+}
+PROPERTY_META["C20"] = {
+    "level": "proof",
+    "level_text": ("change_password is proved over a two-account database with symbolic 1-2 character names (equal, different, prefix-related), every readonly/admin combination, every caller (unauthenticated, either account, unknown) "
+                   "and target, the four stored-hash formats and every outcome of ftruncate / short write / write error: the password is replaced and the file rewritten ONLY for an authenticated caller changing its own non-read-only account or an admin "
+                   "changing another non-read-only account; other accounts are untouched; the salt handed to crypt() is well-formed for the account's method; the database is rewritten from offset 0 and a short write continues where it stopped; "
+                   "the password buffer is wiped on every exit."),
+    "level_note": ("crypt() is uninterpreted: 'the new password authenticates and the old one does not' is decided only up to crypt. The crash-atomicity clause is decided NEGATIVELY: known finding KF-C20-1 (truncate-then-write). "
+                   "load_passwd_data / credentials_ok are not covered. cJSON is an executable model."),
+    "explanation": "C20: harness contract on change_password with get_salt_from_passwd, fill_salt, write_user_data, is_admin, is_readonly inlined.",
+    "not_decided": ["crypt semantics", "crash points between system calls beyond the ghost-file states", "load/parse of the credential file"],
+}
+PROPERTY_META["C13"] = {
+    "level": "other",
+    "level_text": ("The request-line handler is proved against an assumed contract of the vendored parser: every refused exchange is answered with an HTTP 4xx/5xx status (or closed on EOF) and releases the connection exactly once; "
+                   "the URL handler is selected iff the request path starts with the whole configured target (bounded strings); the upgrade is accepted only for HTTP/1.1 or higher. The peer-left-behind clause is decided NEGATIVELY: "
+                   "known finding KF-C13-1, which replays against the real parser."),
+    "level_note": ("http_parser internals, header-block handling in websocket.c (key, version 13, sub-protocol), over-long lines (thorough tier: bs.start) and descriptor accounting are not covered; the parser is an assumed contract."),
+    "explanation": "C13: harness contracts on read_start_line/on_url/free_connection, find_url_handler, check_http_version.",
+    "not_decided": ["vendored parser", "header phase", "segmentation of the request"],
 }
 PENDING = {}
